@@ -26,6 +26,18 @@ CHECKS = {
  "C05": dict(text="Proof (Coq, partial): a target failed in this run is answered with status 32 without touching anything; without --keep-going run_loop starts nothing after a failure; a non-zero job marks its row failed in this run; a failed row is dirty in every later check. " + SERIAL + PARTIAL + " The -j>1 clause rests on the scheduler model of C09.",
     note=TB + " Serial (-j1) semantics; job status vs command status as in DESIGN.md C04/C05.",
     technique="Coq proof of failure-handling rules + model/implementation differential check over failing histories", ref="5/C05"),
+ "C06": dict(text="Proof (Coq): the lock/job protocol as a transition system over the events the hooked implementation reports (acquired, busy, release, forced, job start, job recorded, process end): on every accepted event sequence of any number of processes there is at most one running script per file id, every running script's lock is held by a live process, and a lock can be released only after the result was recorded (C06_mutex, C06_recorded_before_release). Tie: trace validation on 2..5 contending top-level invocations (redo / redo-ifchange, mixed -j, failing scripts); the model refuses e.g. a holder that ends while its script runs (finding F2). Oracle: work sections written by the scripts themselves never overlap per target.",
+    note=TB + " A-FCNTL; events are logged after acquisition / before release so the trace order is a possible real order; killing only the parent redo is a stated limit.",
+    technique="Coq invariant proof over the lock-protocol transition system + trace validation of the implementation's lock events", ref="5/C06"),
+ "C07": dict(text="Proof (Coq, partial): one running script per file id at any time (lock protocol), a file id is handled once per command whatever its spellings, a target that failed in this run is refused; diamond example on the serial model. Equality with the serial build is decided on the implementation: random DAGs at -j1..8, shuffled, duplicate spellings, SIGSTOP/SIGCONT perturbed schedules, compared with a -j1 build (execution counts, exit status, file contents, Files/Deps rows).",
+    note=TB + " confluence (C07_full_statement) is not proved in Coq.",
+    technique="Coq proof of the once-only mechanisms + differential comparison of parallel vs serial builds of the implementation", ref="5/C07"),
+ "C09": dict(text="Proof (Coq, partial): for every sequence of the token-book operations the code performs under its own tests, no assertion of jobserver.rs can fail (C09_no_token_assertion, invariant my,cheats in {0,1}); globally no book or pipe goes negative. Deadlock-freedom is not proved. On the implementation: all-success builds under perturbed schedules (processes stopped/continued at random so that child exits, token arrivals and lock hand-overs coincide), duplicate targets, contending invocations, externally held log locks (cheat storm): must end with exit 0, no panic, token trace accepted by the model.",
+    note=TB + " the model assumes a cheat is granted only to a process holding none (not tested by the code; unconfirmed on the real binary, see DESIGN.md); OS fairness and the 60 s SQLite timeout are assumptions.",
+    technique="Coq safety proof of the token-book automaton + schedule-perturbed runs of the implementation with trace validation", ref="5/C09"),
+ "C12": dict(text="Proof (Coq, partial): the three detection rules return 208 at once without starting a job (target being built by an ancestor; script asking for its own target; recorded chain returning to a file under check); cycles of length 1..3 from every entry on the serial model. On the implementation: cycles of length 1..4 behind prefixes, every entry, -j1..4, bound 15 s. The parallel multi-entry hang is known finding F9.",
+    note=TB + " termination of the nested recursion is not proved in Coq.",
+    technique="Coq proof of the detection rules + bounded-time cyclic scenarios on the implementation", ref="5/C12"),
  "C08": dict(text="Proof (Coq): for every event sequence of any number of redo processes (start, nested begin, token read, cheat, reap with/without cheat byte, release, self-test, exit) the quantity Q = T - C + sum(my - cheats) + J - L is conserved; all books and pipes stay non-negative; working jobs <= n + outstanding cheats; the top-level self-test cannot fail; the tokenless exit of finding F7 is exactly the event the model refuses. Tie: trace validation -- every token-book event reported by the hooked implementation in real parallel builds (-j1..8, log capture on/off, failing builds, inherited jobserver) is replayed through the extracted model, which must accept it and reproduce the reported book and pipe writes. Oracles: self-test message, inherited pipe content, measured work overlap.",
     note=TB + " A-PIPE; the hook verif_token_event is trusted to report the book after each mutation; abort paths (abandoned jobs) are outside the model.",
     technique="Coq invariant proof over a transition system + trace validation of the implementation's own token events", ref="5/C08"),
